@@ -153,6 +153,7 @@ PROPS = {
         tests=[
             dict(name="TestProduct", quick=1, thorough=1, shards_thorough=1, rapid=False),
             dict(name="TestRandom", quick=3000, thorough=800000, shards_thorough=8),
+            dict(name="TestFlakyStore", quick=3000, thorough=300000, shards_thorough=4),
         ],
     ),
     "C16": dict(
